@@ -47,10 +47,20 @@ class _Timeout(BaseException):
 
 
 def _alarm(sec):
+    """limit of one concrete execution: `sec` seconds of CPU time of this process (a loop that does not end burns CPU; the
+    verdict must not depend on what else the machine is running), with a wall-clock backstop of 8 x sec for executions that
+    wait instead of compute (locks, subprocesses)"""
     def h(sig, frm):
         raise _Timeout()
+    signal.signal(signal.SIGPROF, h)
     signal.signal(signal.SIGALRM, h)
-    signal.alarm(sec)
+    signal.setitimer(signal.ITIMER_PROF, sec)
+    signal.alarm(sec * 8)
+
+
+def _alarm_off():
+    signal.setitimer(signal.ITIMER_PROF, 0)
+    signal.alarm(0)
 
 
 def _loops_by_file(u):
@@ -83,9 +93,9 @@ def run_conc(u, params, given=None, rng=None, timeout=None):
     except _Timeout:
         res["status"] = "timeout"
         if getattr(u, "terminates", False):
-            U.records.append(("terminates within %ds" % timeout, "failed", None, []))
+            U.records.append(("terminates within %d s of CPU time (or %d s of waiting)" % (timeout, 8 * timeout), "failed", None, []))
         else:
-            res["error"] = "concrete run exceeded %ds (machine load?): undecided, not a violation" % timeout
+            res["error"] = "concrete run exceeded %d s of CPU time: undecided, not a violation" % timeout
     except Unsupported as e:
         res["status"] = "unsupported"
         res["error"] = str(e)
@@ -93,7 +103,7 @@ def run_conc(u, params, given=None, rng=None, timeout=None):
         res["status"] = "crash"
         res["error"] = traceback.format_exc()
     finally:
-        signal.alarm(0)
+        _alarm_off()
     res["records"] = U.records
     res["drawn"] = U.drawn
     return res
